@@ -545,6 +545,71 @@ func framing(structs []smbgen.Struct) {
 	}
 }
 
+// chained: a message given two commands (AddCommand twice: an AndX command and the one batched
+// after it). MS-CIFS 2.2.3.1: the header's Command is the code of the FIRST command of the
+// chain; the bytes after the header start with that command's blocks, so decoding designates
+// the first command's type.
+func chained(structs []smbgen.Struct) {
+	var andxS, others []smbgen.Struct
+	for _, s := range structs {
+		if s.New().IsAndX() {
+			andxS = append(andxS, s)
+		} else if len(others) < 12 {
+			others = append(others, s)
+		}
+	}
+	for i, a := range andxS {
+		for j := 0; j < 4; j++ {
+			b := others[(i+j)%len(others)]
+			if j == 3 {
+				b = andxS[(i+1)%len(andxS)]
+			}
+			if a.Response != b.Response {
+				continue
+			}
+			ca, cb := a.New(), b.New()
+			smbgen.Fill(ca, smbgen.Relations(a.Name), r.Rand(fmt.Sprintf("chain|%s|%d", a.Name, j)), smbgen.ModeOne, 6)
+			smbgen.Fill(cb, smbgen.Relations(b.Name), r.Rand(fmt.Sprintf("chain2|%s|%d", b.Name, j)), smbgen.ModeOne, 6)
+			smbgen.AlignPads(ca, smbgen.Relations(a.Name))
+			m := message.NewMessage()
+			if a.Response {
+				m.Header.Flags |= flags.FLAGS_REPLY
+			}
+			var wire []byte
+			var err error
+			cs := map[string]any{"first": a.Name, "second": b.Name}
+			p, pv, st := mon.Guard(func() {
+				m.AddCommand(ca)
+				m.AddCommand(cb)
+				wire, err = m.Marshal()
+			})
+			r.Eval(1)
+			if p {
+				r.Violation("chain:"+a.Name+":panic", fmt.Sprintf("%v at %s", pv, mon.TopLibFrame(st)), cs)
+				continue
+			}
+			if err != nil || len(wire) < 33 {
+				r.Count("chained_messages_not_encodable", 1)
+				continue
+			}
+			cs["wire"] = mon.FullHex(wire)
+			if wire[4] != a.Code {
+				r.Violation("chain:header-command", fmt.Sprintf("a message holding %s followed by %s has header command %#02x; the first command's code is %#02x", a.Name, b.Name, wire[4], a.Code), cs)
+				continue
+			}
+			m2 := message.NewMessage()
+			p, _, _ = mon.Guard(func() { err = m2.Unmarshal(wire) })
+			r.Eval(1)
+			if !p && err == nil && m2.Command != nil {
+				if got := reflect.TypeOf(m2.Command).Elem().Name(); got != a.Name {
+					r.Violation("chain:decode:wrong-type", fmt.Sprintf("a message holding %s followed by %s decodes as %s", a.Name, b.Name, got), cs)
+				}
+			}
+			r.Nontrivial(fmt.Sprintf("chain|%s|%s", a.Name, b.Name))
+		}
+	}
+}
+
 // concurrentCallers: unrelated headers and messages encoded on different goroutines must be
 // the bytes a single caller gets (no shared scratch buffers in the encoders).
 func concurrentCallers(structs []smbgen.Struct) {
@@ -598,6 +663,7 @@ func main() {
 	headers()
 	dispatch(reqT, respT)
 	framing(structs)
+	chained(structs)
 	blockSequences()
 	concurrentCallers(structs)
 	r.SetExhaustive(false)
